@@ -53,8 +53,36 @@ let decode_cmd () =
        | OutOfFuel -> Printf.printf "%s fuel\n" id)
     | _ -> ())
 
+let render_torrent (t : torrent) =
+  let files = match t.t_files with
+    | None -> "-"
+    | Some fs -> "[" ^ String.concat "," (List.map (fun f -> string_of_n f.f_length ^ ":" ^ String.concat "/" (List.map hex_of_bytes f.f_path)) fs) ^ "]" in
+  let l = match t.t_length with None -> "-" | Some l -> string_of_n l in
+  Printf.sprintf "ok name=%s len=%s files=%s pl=%s hashes=%s ih=%s" (hex_of_bytes t.t_name) l files (string_of_n t.t_piece_length)
+    (String.concat "," (List.map hex_of_bytes t.t_pieces)) (hex_of_bytes t.t_info_hash)
+
+let load_cmd () =
+  iter_lines (fun line ->
+    match words line with
+    | [id; h] ->
+      (match load sha1 (bytes_of_hex h) with
+       | Ok t -> Printf.printf "%s %s\n" id (render_torrent t)
+       | Err -> Printf.printf "%s err\n" id
+       | Panic -> Printf.printf "%s panic\n" id
+       | OutOfFuel -> Printf.printf "%s fuel\n" id)
+    | _ -> ())
+
+let bytes_cmd f () =
+  iter_lines (fun line ->
+    match words line with
+    | [id; h] -> Printf.printf "%s %s\n" id (hex_of_bytes (f (bytes_of_hex h)))
+    | _ -> ())
+
 let () =
   match Sys.argv with
+  | [| _; "load" |] -> load_cmd ()
+  | [| _; "hex" |] -> bytes_cmd hexdigest ()
+  | [| _; "sha1" |] -> bytes_cmd sha1 ()
   | [| _; "decode" |] -> decode_cmd ()
   | [| _; "layout" |] -> layout_cmd ()
   | _ -> prerr_endline "usage: driver <layout|...>"; exit 2
